@@ -206,11 +206,60 @@ static Outcome add_case(const std::string &spec) {
   return o;
 }
 
+// reuse history on ONE RangeParser object. ops: P:<expr> (Parse), A:b_e_s (Add), O (operator<< then Parse of the
+// printed text into the SAME object).  Contract (the code appends to its block list and never clears it): after every
+// op the enumeration is exactly all blocks added so far, in order; iterating twice gives the same sequence.
+static Outcome rseq_case(const std::string &ops) {
+  Outcome o;
+  std::string cas = "rseq;ops=" + ops;
+  RangeParser rp;
+  std::vector<long> exp;
+  std::string prev = "fresh", trace;
+  bool hasneg = false;
+  for (auto &op : bsx::split(ops, '/')) {
+    std::string kind = op[0] == 'P' ? "parse" : op[0] == 'A' ? "add" : "print-parse";
+    std::vector<long> add;
+    if (op[0] == 'P') {
+      std::string expr = dec(op.substr(2));
+      RefParse ref = refparse(expr);
+      if (!ref.malformed.empty() || ref.blank || ref.either) return fail("bad-case", "reuse histories use plain well-formed expressions only", cas);
+      for (auto &b : ref.blocks) { hasneg |= b.s < 0; if (b.empty()) return fail("bad-case", "empty interval in a reuse history", cas); }
+      add = refseq(ref.blocks);
+      try { rp.Parse(expr); } catch (const std::exception &e) { return fail("range-reuse-" + prev + "-then-parse-rejected", "Parse(\"" + expr + "\") on a reused object threw: " + e.what(), cas); }
+    } else if (op[0] == 'A') {
+      auto f = bsx::split(op.substr(2), '_');
+      RBlock b{atol(f[0].c_str()), atol(f[1].c_str()), atol(f[2].c_str())};
+      add = refseq({b});
+      if (b.s == 1) rp.Add(b.b, b.e); else rp.Add(b.b, b.e, b.s);
+    } else {
+      std::ostringstream os;
+      os << rp;
+      add = exp;  // the printed text denotes everything added so far, parsing it appends that once more
+      try { rp.Parse(os.str()); } catch (const std::exception &e) {
+        if (!exp.empty()) return fail("range-reuse-" + prev + "-then-print-parse-rejected", "printed \"" + os.str() + "\" rejected by Parse on the same object: " + e.what(), cas);
+      }
+    }
+    exp.insert(exp.end(), add.begin(), add.end());
+    std::vector<long> g1, g2;
+    size_t budget = exp.size() + 32;
+    std::string sfx = hasneg ? "-negative-stride" : "";
+    if (!iterate(rp, budget, g1)) return fail("range-reuse-" + prev + "-then-" + kind + "-nonterminating" + sfx, "after " + op + " iteration does not terminate within " + std::to_string(budget) + " steps", cas);
+    if (g1 != exp) return fail("range-reuse-" + prev + "-then-" + kind + sfx, "after " + op + " the object enumerates " + show(g1, 24) + ", all blocks added so far denote " + show(exp, 24), cas);
+    if (!iterate(rp, budget, g2) || g2 != g1) return fail("range-reuse-iterate-twice-differs" + sfx, "second iteration gives " + show(g2, 24) + " after " + show(g1, 24), cas);
+    prev = kind;
+    trace = show(exp, 24);
+  }
+  o.extra = trace;
+  if (!exp.empty()) o.cls = bsx::fnv("rseq" + show(exp, 1000));
+  return o;
+}
+
 static Outcome run_case(const std::string &cas) {
   auto m = bsx::kvs(cas);
   try {
     if (cas.rfind("range;", 0) == 0) return range_case(dec(m["expr"]));
     if (cas.rfind("add;", 0) == 0) return add_case(m["blocks"]);
+    if (cas.rfind("rseq;", 0) == 0) return rseq_case(m["ops"]);
   } catch (const std::exception &e) {
     Outcome o; o.ok = false; o.key = "bad-case"; o.what = std::string("harness: ") + e.what() + " [" + cas + "]";
     return o;
@@ -300,12 +349,26 @@ int main(int argc, char **argv) {
     for (auto &v : valid) cases.push_back("add;blocks=" + v);
     for (size_t i = 0; i < valid.size(); i += 7) for (size_t j = 0; j < valid.size(); j += 11) cases.push_back("add;blocks=" + valid[i] + "/" + valid[j]);
   }
+  // (7) reuse histories on one object: all ordered pairs (thorough: triples) over 8 Parse inputs, 3 Add inputs and print->Parse-into-itself
+  {
+    std::vector<std::string> B;
+    for (auto &e : std::vector<std::string>{"3", "0:2", "0:2:5", "6:-2:1", "-3:-1", "7:7", "1,4:5", " 2 : 3 "}) B.push_back("P:" + enc(e));
+    for (auto &t : std::vector<std::string>{"0_2_1", "5_9_2", "4_4_1"}) B.push_back("A:" + t);
+    B.push_back("O");
+    for (auto &x : B) cases.push_back("rseq;ops=" + x);
+    for (auto &x : B) for (auto &y : B) {
+      cases.push_back("rseq;ops=" + x + "/" + y);
+      if (thorough) for (auto &z : B) cases.push_back("rseq;ops=" + x + "/" + y + "/" + z);
+    }
+  }
   R.rule = "RangeParser: every expression of a bounded grammar window — all single blocks 'b', 'b:e', 'b:s:e' with b,e in [" + std::to_string(lo) + "," + std::to_string(hi) +
            "], s in [" + std::to_string(-smax) + "," + std::to_string(smax) + "] (incl. zero and negative strides, empty intervals); " + std::to_string(mal.size()) +
            " malformed / unsettled spellings (empty fields and blocks, garbage, leading '+', tabs and newlines, integers beyond 32 and 64 bit, ...) alone and before/after a valid block; all two-block expressions over a " + std::to_string(sub2.size()) +
            "-block subset; the same blocks written with blanks; three-block expressions over a small subset; Add(b,e,s) for all valid positive-stride "
            "blocks and pairs of them. Oracle: strict reference parser (int | int:int | int:int:int per comma separated block after blank removal, stride != 0) "
            "+ direct enumeration; iteration under a step budget of len+32 (non-termination = failure); print->Parse round trip must give the same sequence. "
+           "Reuse histories on ONE object: all ordered pairs (thorough: triples) over 8 Parse inputs, 3 Add inputs and operator<< -> Parse into the same object; after every step the "
+           "enumeration must be exactly all blocks added so far in order (blocks accumulate, nothing is cleared) and a second iteration must repeat it. "
            "distinct = distinct non-empty enumerated sequences + distinct rejection classes";
 
   std::vector<long long> mineidx;
@@ -315,7 +378,7 @@ int main(int argc, char **argv) {
       [&](long long k, const Outcome &o) {
         const std::string &cas = cases[mineidx[k]];
         R.eval();
-        R.counters[cas.rfind("add;", 0) == 0 ? "add_cases" : "parse_cases"]++;
+        R.counters[cas.rfind("rseq;", 0) == 0 ? "reuse_histories" : cas.rfind("add;", 0) == 0 ? "add_cases" : "parse_cases"]++;
         if (!o.ok) {
           if (o.key == "fatal") {
             // died (signal / alarm) inside the library: classify by the input
